@@ -191,13 +191,16 @@ func perturbQuote(q []byte, pr *ProbeRec, perturb string, k int) ([]byte, bool) 
 func teRewrite(q []byte, k int) []byte {
 	if q[0]>>4 == 4 {
 		q[8] = byte(k & 1) // TTL as the router saw it: 1 or 0
-		q[1] = 0xb8        // TOS rewritten on the way
+		q[1] = [...]byte{0xb8, 0xb8, 0x20, 0xc0, 0x03, 0xff}[(uint(k)>>2)%6] // TOS rewritten on the way (DSCP re-marked, ECN set)
 		if k&2 == 0 {
 			fixV4Csum(q)
 		}
 	} else {
 		q[7] = byte(k & 1)
-		q[1] |= 0x0f // traffic class / flow label bits rewritten
+		// traffic class re-marked on the way (it straddles the first two bytes: version|TC high, TC low|flow label high)
+		tc := [...]byte{0x00, 0x03, 0x20, 0xb8, 0xc0, 0xff}[(uint(k)>>2)%6]
+		q[0] = 0x60 | tc>>4
+		q[1] = tc<<4 | 0x0f // ... and flow label bits
 	}
 	return q
 }
@@ -300,7 +303,12 @@ func (w *World) buildReply(ep *Endpoint, pr *ProbeRec, hp *HopPlan, r *Reply) (b
 		if base == "unreachFull" {
 			qk = codec.QuoteFull
 		}
-		b, ok = quoteForm(codec.UnreachableType(ip.Dst), code, codec.ICMPErrOpts{Quote: qk})
+		o := codec.ICMPErrOpts{Quote: qk}
+		if len(args) > 1 && args[1] == "rw" {
+			// the probe was re-marked on its way (TOS / traffic class, TTL as it arrived): the quote shows it
+			o.Mutate = func(q []byte) []byte { return teRewrite(q, k) }
+		}
+		b, ok = quoteForm(codec.UnreachableType(ip.Dst), code, o)
 	case "echo":
 		if ip.Proto != codec.ProtoICMP && ip.Proto != codec.ProtoICMPv6 {
 			return nil, false
